@@ -1,6 +1,7 @@
 package props
 
 import (
+	"os"
 	"strconv"
 
 	"pgregory.net/rapid"
@@ -23,3 +24,5 @@ var c08Docs = func(h *vlib.H) {}
 
 // injectAnyFault puts one fault into a valid document (filled in with C11).
 var injectAnyFault = func(t *rapid.T, doc *vlib.Doc) *vlib.Doc { return doc }
+
+func removeAll(dir string) { _ = os.RemoveAll(dir) }
